@@ -180,6 +180,12 @@ pub const KINDS30: [&str; 30] = [
 // ------------------------------------------------------------------ C16
 
 fn gen_path(rng: &mut Rng) -> String {
+    if rng.chance(1, 6) {
+        // paths whose first / last scalars are ones a "clean-up" step might treat specially
+        let lead = *rng.pick(&["\u{FEFF}", "\u{FFFE}", " ", "/", "\u{0}", "\t", "\u{200B}", "r#", "\u{FEFF}\u{FEFF}"]);
+        let trail = *rng.pick(&["", "", "/", " ", "\u{0}", "\n", "\u{FEFF}"]);
+        return format!("{}topic{}{}", lead, rng.below(50), trail);
+    }
     match rng.below(6) {
         0 => String::new(),
         1 => "test_path".into(),
